@@ -88,7 +88,8 @@ def floors(tier):
                         "query_on_cell_border": 200, "query_on_cell_corner": 200, "query_on_outer_border": 200,
                         "query_on_upper_outer_border": 100, "nonsquare_neighbourhood_demanded": 100,
                         "segment_query_along_gridline": 30, "zero_length_leg": 30,
-                        "leg_on_outer_border": 50, "leg_on_upper_outer_border": 25},
+                        "leg_on_outer_border": 50, "leg_on_upper_outer_border": 25,
+                        "vertex_on_border_ulps_from_corner": 40},
             "distinct_nontrivial": 1000 if q else 10000}
 
 
@@ -111,8 +112,27 @@ def cellsCrossSegment_covers(self, coord1, coord2, result):
             if (i, j) in got:
                 continue
             if G.segment_crosses_shrunk_box(a, b, i, j, i + 1, j + 1, EPS_U):
+                LAST_BROKEN.clear()
+                LAST_BROKEN.update({"coord1": a, "coord2": b, "returned": sorted(got), "missing_cell": (i, j),
+                                    "end_on_border_near_corner": _end_on_border_near_corner(a, b, i, j)})
                 return False
     return True
+
+
+LAST_BROKEN = {}
+
+
+def _end_on_border_near_corner(a, b, i, j):
+    """Input predicate of finding C08:leg-end-on-border-near-corner (grid units): an end point of the segment lies
+    exactly on a border line of the missing cell and within 1e-9 of -- but not at -- one of its corners."""
+    for e in (a, b):
+        for k, (lo, other_lo) in enumerate(((i, j), (j, i))):
+            on = e[k] == lo or e[k] == lo + 1
+            o = e[1 - k]
+            near = min(abs(o - other_lo), abs(o - (other_lo + 1)))
+            if on and 0 < near <= 1e-9:
+                return True
+    return False
 
 
 def groundDistanceToUnits_covers(self, distance, result):
@@ -270,11 +290,44 @@ def _border_tracks(rng):
     return tracks, res
 
 
+def _corner_tracks(rng):
+    """A diagonal frame plus up to five one-leg features, each running from the inside of a cell to a point on the
+    border of that cell one or two ulps away from one of its corners."""
+    res = rng.choice(RES_SQUARE + RES_NONSQUARE)
+    margin = rng.choice(MARGINS)
+    big = max(res)
+    W, H = rng.uniform(3 * big, 3 * big + 9), rng.uniform(3 * big, 3 * big + 9)
+    if rng.random() < 0.4:
+        W, H = float(round(W)), float(round(H))
+    ox, oy = rng.choice([0, rng.uniform(-5, 5)]), rng.choice([0, rng.uniform(-5, 5)])
+    frame = [[ox, oy], [ox + W, oy + H]]
+    P = _predict([frame], res, margin)
+    tracks = [frame]
+    if P is None:
+        return tracks, res, margin
+    for _ in range(40):
+        if len(tracks) >= 6:
+            break
+        i, j = rng.randrange(P["cs"]), rng.randrange(P["ls"])
+        ci, cj = i + rng.randrange(2), j + rng.randrange(2)
+        c = [_gx(P, ci), _gy(P, cj)]
+        k = rng.randrange(2)
+        for _n in range(rng.randint(1, 2)):
+            c[k] = math.nextafter(c[k], rng.choice([-math.inf, math.inf]))
+        q = [P["x0"] + (i + rng.uniform(0.05, 0.95)) * P["dX"], P["y0"] + (j + rng.uniform(0.05, 0.95)) * P["dY"]]
+        if all(P["bx0"] < v[0] < P["bx1"] and P["by0"] < v[1] < P["by1"] for v in (c, q)):
+            tracks.append([q, c] if rng.random() < 0.5 else [c, q])
+    return tracks, res, margin
+
+
 def _gen_rand_case(rng, force=None):
     force = force or {}
     if force.get("border"):
         tracks, res = _border_tracks(rng)
         force = {"res": res, "margin": 0, "tracks": tracks, "profile": "border"}
+    if force.get("corner"):
+        tracks, res, margin = _corner_tracks(rng)
+        force = {"res": res, "margin": margin, "tracks": tracks, "profile": "corner"}
     kind = force.get("kind") or rng.choice(["tc", "net"])
     profile = force.get("profile") or rng.choice(PROFILES)
     margin = force["margin"] if "margin" in force else rng.choice(MARGINS)
@@ -340,6 +393,29 @@ def _gen_rand_case(rng, force=None):
                         gy = _gy(P, j)
                         if P["by0"] < gy < P["by1"]:
                             p[1] = gy
+            # some vertices on a grid line one or two ulps away from a grid corner
+            for t in tracks:
+                for m, p in enumerate(t):
+                    if p[0] in (P["bx0"], P["bx1"]) or p[1] in (P["by0"], P["by1"]) or rng.random() > 0.25:
+                        continue
+                    i = int(round((p[0] - P["x0"]) / P["dX"]))
+                    j = int(round((p[1] - P["y0"]) / P["dY"]))
+                    gx, gy = _gx(P, i), _gy(P, j)
+                    if not (P["bx0"] < gx < P["bx1"] and P["by0"] < gy < P["by1"]):
+                        continue
+                    p[0], p[1] = gx, gy
+                    k = rng.randrange(2)
+                    for _n in range(rng.randint(1, 2)):
+                        p[k] = math.nextafter(p[k], rng.choice([-math.inf, math.inf]))
+                    # often make the adjoining leg a short one that stays inside one of the four cells around
+                    nb = [q for q in (t[m - 1] if m else None, t[m + 1] if m + 1 < len(t) else None) if q is not None
+                          and q[0] not in (P["bx0"], P["bx1"]) and q[1] not in (P["by0"], P["by1"])]
+                    if nb and rng.random() < 0.7:
+                        q = rng.choice(nb)
+                        qx = gx + rng.choice([-1, 1]) * rng.uniform(0.05, 0.95) * P["dX"]
+                        qy = gy + rng.choice([-1, 1]) * rng.uniform(0.05, 0.95) * P["dY"]
+                        if P["bx0"] < qx < P["bx1"] and P["by0"] < qy < P["by1"]:
+                            q[0], q[1] = qx, qy
             P2 = _predict(tracks, res, margin)
             if P2 is None or (P2["x0"], P2["x1"], P2["y0"], P2["y1"]) != (P["x0"], P["x1"], P["y0"], P["y1"]):
                 continue
@@ -431,6 +507,9 @@ def cases(chunk):
             force["kind"] = ["tc", "net"][(k + n // 5) % 2]
         if n % 12 == 5:
             yield _gen_rand_case(rng, {"border": True})
+            continue
+        if n % 12 == 9:
+            yield _gen_rand_case(rng, {"corner": True})
             continue
         if n % 7 == 0:
             force["res"] = RES_NONSQUARE[(k + n // 7) % len(RES_NONSQUARE)]
@@ -539,6 +618,15 @@ def _only_via_upper_border_leg(g, pts, p, d):
     return all(G.point_segment_dist(p, a, b) > d - EPS for a, b in rest)
 
 
+def _note_contract(w):
+    """When the witness carries a broken cellsCrossSegment contract, add the call that broke it."""
+    r = w.get("raised")
+    if M.is_raised(r) and r.type == "ContractBroken" and getattr(r.exc, "name", "") == "cellsCrossSegment.covers" \
+            and LAST_BROKEN:
+        w["cellsCrossSegment_call"] = dict(LAST_BROKEN)
+        w.setdefault("mechanism", {})["end_on_border_near_corner"] = LAST_BROKEN.get("end_on_border_near_corner")
+
+
 def _is_listlike(r):
     return isinstance(r, (list, tuple, set))
 
@@ -562,12 +650,14 @@ def run_case(case, ctx):
         cls.add("res_nonsquare")
     sig = (case["kind"], tuple(res) if res else None, margin, tuple(tuple(tuple(p) for p in t) for t in tracks))
 
+    LAST_BROKEN.clear()
     built = M.call(_build, case)
     if M.is_raised(built):
         upper = any(p[0] == P["bx1"] or p[1] == P["by1"] for t in tracks for p in t) and margin == 0
-        return violated({"what": "building the index failed on an in-domain feature set", "raised": built,
-                         "mechanism": {"vertex_on_upper_outer_border": upper, "margin": margin, "res": res}},
-                        sig, True, sorted(cls))
+        w = {"what": "building the index failed on an in-domain feature set", "raised": built,
+             "mechanism": {"vertex_on_upper_outer_border": upper, "margin": margin, "res": res}}
+        _note_contract(w)
+        return violated(w, sig, True, sorted(cls))
     si, trs = built
     g = _Grid(si)
     feats = [[(t.getObs(i).position.getX(), t.getObs(i).position.getY()) for i in range(t.size())] for t in trs]
@@ -597,6 +687,10 @@ def run_case(case, ctx):
                 cls.add("vertex_on_upper_outer_border")
             if k and pts[k - 1] == p:
                 cls.add("zero_length_leg")
+            fx, fy = g.frac(p)
+            for u, v in ((fx, fy), (fy, fx)):
+                if u == round(u) and 0 < abs(v - round(v)) <= 1e-9:
+                    cls.add("vertex_on_border_ulps_from_corner")
             if k and ((p[0] == pts[k - 1][0] and ox) or (p[1] == pts[k - 1][1] and oy)):
                 cls.add("leg_on_outer_border")
                 if (p[0] == pts[k - 1][0] and ux) or (p[1] == pts[k - 1][1] and uy):
@@ -624,6 +718,7 @@ def run_case(case, ctx):
         w = {"what": what, "query": q, "grid": g.describe(), "kind": case["kind"], "margin": margin, "res": res,
              "features": feats, "mechanism": dict(mech, nonsquare_cells=nonsquare, query_kind=q["q"])}
         w.update(extra)
+        _note_contract(w)
         return violated(w, sig, True, sorted(cls))
 
     for q in case["queries"]:
@@ -748,8 +843,17 @@ def run_case(case, ctx):
 
 # --------------------------------------------------------------------------
 def classify(case, witness):
-    """No open finding for C08.  The three defects this check reported (upper-border IndexError, larger cell side in
-    groundDistanceToUnits, leg on the upper outer border registered nowhere) are repaired in the repository
-    ('fixed' entries in known_findings.json suppress nothing); the input predicates that identified them stay in
-    the witness under "mechanism" for diagnosis only."""
+    """Mechanism -> finding id, as a predicate over the inputs of the call that broke the contract.
+
+    C08:leg-end-on-border-near-corner -- __cellsCrossSegment drops the cell a segment lies in when one of its end
+    points sits exactly on a border of that cell within rounding distance of (not at) a corner: the straddle test of
+    isSegmentIntersects then evaluates the segment's line at the corner and gets a rounding-noise sign.
+
+    The defects already repaired in the repository (upper-border IndexError, larger cell side in
+    groundDistanceToUnits, leg on the upper outer border) map to None: 'fixed' entries suppress nothing."""
+    if not isinstance(witness, dict):
+        return None
+    mech = witness.get("mechanism") or {}
+    if witness.get("cellsCrossSegment_call") and mech.get("end_on_border_near_corner"):
+        return "C08:leg-end-on-border-near-corner"
     return None
